@@ -3,7 +3,8 @@
 //! valid encodings plus all short strings; executed in child processes
 //! because a refused enormous allocation aborts the process.
 
-use crate::child::{ChildCtx, Outcome, child_range, run_range};
+use crate::child::{Outcome, child_fail, child_main, child_range, run_range};
+use std::sync::Arc;
 use crate::corpus::{Decoded, Entry, corpus, drop_grid_cache};
 use crate::viol::Collector;
 use engine::{Args, DistinctCounter, Report, Tier, catch, hex, normalise, par_for, unhex};
@@ -22,6 +23,7 @@ pub const MAX_SEEDS_QUICK: usize = 24;
 pub const MAX_SEEDS_THOROUGH: usize = 200;
 pub const ALPHABET: [u8; 5] = [0x00, 0x01, 0x7f, 0x80, 0xff];
 pub const CHUNK: usize = 3000;
+pub const ZST_CHUNK: usize = 6;
 
 pub struct Case {
     pub origin: String,
@@ -175,6 +177,32 @@ pub fn cases(e: &Entry, tier: Tier) -> Vec<Case> {
     out
 }
 
+/// Case file handed to the children (so that a restarted child starts in
+/// about a millisecond): u32 count, then per case u32 length + bytes.
+fn write_case_file(path: &str, cs: &[Case]) {
+    let mut buf: Vec<u8> = Vec::new();
+    buf.extend_from_slice(&(cs.len() as u32).to_le_bytes());
+    for c in cs {
+        buf.extend_from_slice(&(c.bytes.len() as u32).to_le_bytes());
+        buf.extend_from_slice(&c.bytes);
+    }
+    std::fs::write(path, buf).unwrap_or_else(|e| engine::machinery_failure(&format!("case file {path}: {e}")));
+}
+
+fn read_case_file(path: &str) -> Option<Vec<Vec<u8>>> {
+    let buf = std::fs::read(path).ok()?;
+    let n = u32::from_le_bytes(buf.get(0..4)?.try_into().ok()?) as usize;
+    let mut pos = 4;
+    let mut out = Vec::with_capacity(n.min(1 << 20));
+    for _ in 0..n {
+        let l = u32::from_le_bytes(buf.get(pos..pos + 4)?.try_into().ok()?) as usize;
+        pos += 4;
+        out.push(buf.get(pos..pos + l)?.to_vec());
+        pos += l;
+    }
+    Some(out)
+}
+
 /// `VecOfEmpty` (a struct around a vector of zero-sized elements) is left to
 /// C20: nearly every mutation of its length field is a multi-second loop,
 /// the same defect that the `Vec<Empty>` deserializer already exhibits.
@@ -197,34 +225,26 @@ fn execute(e: &Entry, bytes: &[u8]) -> String {
 
 pub fn child(args: &Args) -> i32 {
     let (job, start, end) = child_range(&args.extra);
-    let mut ctx = ChildCtx::new();
     if job.is_empty() {
-        ctx.fail("C21 child: job = <entry index> | hex <entry name> <hex>");
+        child_fail("C21 child: job = <entry index> <case file> | hex <entry name> <hex>");
     }
     if job[0] == "hex" {
         // single explicit input (replay / confirmation)
         let e = find_entry(&job[1]);
         let bytes = unhex(job.get(2).map(|s| s.as_str()).unwrap_or(""));
-        ctx.begin(0);
-        let p = execute(&e, &bytes);
-        ctx.end(0, &p);
-        ctx.done();
-        return 0;
+        return child_main(0, 1, Arc::new(move |_| execute(&e, &bytes)));
     }
-    let ei: usize = job[0].parse().unwrap_or_else(|_| ctx.fail("bad entry index"));
-    let entries = c21_corpus();
-    let Some(e) = entries.get(ei) else { ctx.fail("entry index out of range") };
-    let cs = cases(e, args.tier);
-    for i in start..end.min(cs.len()) {
-        ctx.begin(i);
-        let p = execute(e, &cs[i].bytes);
-        ctx.end(i, &p);
+    let ei: usize = job[0].parse().unwrap_or_else(|_| child_fail("bad entry index"));
+    let mut entries = c21_corpus();
+    if ei >= entries.len() {
+        child_fail("entry index out of range");
     }
+    let e = entries.swap_remove(ei);
+    let Some(cs) = job.get(1).and_then(|f| read_case_file(f)) else { child_fail("cannot read the case file") };
     if end > cs.len() {
-        ctx.fail("range beyond the case list");
+        child_fail("range beyond the case list");
     }
-    ctx.done();
-    0
+    child_main(start, end, Arc::new(move |i| execute(&e, &cs[i])))
 }
 
 /// (signature, kind, human text) of a violating outcome, None if the outcome is allowed
@@ -236,7 +256,10 @@ fn classify(e: &Entry, o: &Outcome) -> Option<(String, String)> {
             }
             if let Some(rest) = l.strip_prefix("A|") {
                 let (size, tail) = rest.split_once('|').unwrap_or((rest, ""));
-                return Some((format!("{}|enormous-allocation|survived|", e.kind), format!("single allocation request of {size} bytes (refused, the caller survived: {tail})")));
+                return Some((format!("{}|enormous-allocation||", e.kind), format!("single allocation request of {size} bytes (refused, the caller survived: {tail})")));
+            }
+            if let Some(size) = l.strip_prefix("X|") {
+                return Some((format!("{}|enormous-allocation||", e.kind), format!("single allocation request of {size} bytes")));
             }
             if let Some(rest) = l.strip_prefix("P|") {
                 let mut it = rest.splitn(3, '|');
@@ -258,8 +281,8 @@ fn outcome_class(o: &Outcome) -> String {
                 "ok".into()
             } else if let Some(d) = l.strip_prefix("E|") {
                 format!("err: {d}")
-            } else if l.starts_with("A|") {
-                "enormous-allocation (survived)".into()
+            } else if l.starts_with("A|") || l.starts_with("X|") {
+                "enormous-allocation".into()
             } else {
                 let rest = l.strip_prefix("P|").unwrap_or(l);
                 let mut it = rest.splitn(3, '|');
@@ -282,18 +305,25 @@ pub fn run(args: &Args) -> i32 {
     // 1. case counts per deserializer
     let counts: Vec<AtomicU64> = entries.iter().map(|_| AtomicU64::new(0)).collect();
     let seeds_used: Vec<AtomicU64> = entries.iter().map(|_| AtomicU64::new(0)).collect();
+    let scratch = engine::Scratch::new("c21");
+    let all_cases: Vec<Mutex<Vec<Case>>> = entries.iter().map(|_| Mutex::new(vec![])).collect();
     par_for(entries.len(), 0, |_, ei| {
         let cs = cases(&entries[ei], args.tier);
         counts[ei].store(cs.len() as u64, Ordering::SeqCst);
         seeds_used[ei].store(cs.iter().filter(|c| c.origin.starts_with("valid(")).count() as u64, Ordering::SeqCst);
+        write_case_file(&scratch.path(&format!("{ei}.cases")), &cs);
+        *all_cases[ei].lock().unwrap() = cs;
     });
+    let all_cases: Vec<Vec<Case>> = all_cases.into_iter().map(|m| m.into_inner().unwrap()).collect();
     let mut units: Vec<(usize, usize, usize)> = vec![];
     for (ei, c) in counts.iter().enumerate() {
         let n = c.load(Ordering::SeqCst) as usize;
+        // the deserializer with zero-sized elements has multi-second cases: spread them
+        let chunk = if entries[ei].name == "Vec<Empty>" { ZST_CHUNK } else { CHUNK };
         let mut s = 0;
         while s < n {
-            units.push((ei, s, (s + CHUNK).min(n)));
-            s += CHUNK;
+            units.push((ei, s, (s + chunk).min(n)));
+            s += chunk;
         }
     }
     // largest deserializers first would cluster; interleave by sorting on start offset
@@ -307,9 +337,9 @@ pub fn run(args: &Args) -> i32 {
     par_for(units.len(), args.seed, |_, ui| {
         let (ei, start, end) = units[ui];
         let e = &entries[ei];
-        let cs = cases(e, args.tier);
+        let cs = &all_cases[ei];
         let mut local: BTreeMap<String, u64> = BTreeMap::new();
-        let job = vec![ei.to_string(), "--tier".to_string(), tier_s.clone()];
+        let job = vec![ei.to_string(), scratch.path(&format!("{ei}.cases")), "--tier".to_string(), tier_s.clone()];
         run_range("C21", &job, start, end, &mut |idx, o| {
             evaluations.fetch_add(1, Ordering::Relaxed);
             let c = &cs[idx];
@@ -363,8 +393,7 @@ pub fn run(args: &Args) -> i32 {
     report.set("exhaustive", json!(true));
     report.assume("Vec<Empty> (zero-sized elements): only the mutations of valid encodings and the <=3-byte strings are enumerated, because every longer string is a multi-second loop");
     for (i, e) in entries.iter().enumerate().filter(|(i, _)| i % 20 == 5) {
-        let cs = cases(e, args.tier);
-        let _ = i;
+        let cs = &all_cases[i];
         if let Some(c) = cs.iter().rev().find(|c| c.origin.starts_with("field8")) {
             report.sample(json!({"deserializer": e.name, "input": hex(&c.bytes), "origin": c.origin}));
         }
